@@ -201,6 +201,8 @@ type SimplifiedAdfOpt = OptionWithError<SimplifiedAdf>;
 
 #[derive(Deserialize, Serialize)]
 pub(crate) struct AdfProblem {
+    #[serde(rename = "_id", skip_serializing_if = "Option::is_none")]
+    pub(crate) id: Option<mongodb::bson::oid::ObjectId>,
     pub(crate) name: String,
     pub(crate) username: String,
     pub(crate) code: String,
@@ -405,6 +407,7 @@ async fn add_adf_problem(
     };
 
     let adf_problem: AdfProblem = AdfProblem {
+        id: None,
         name: problem_name.clone(),
         username: username.clone(),
         code: adf_problem_input.code.clone(),
@@ -415,10 +418,14 @@ async fn add_adf_problem(
 
     let result = adf_coll.insert_one(&adf_problem, None).await;
 
-    if let Err(err) = result {
-        return HttpResponse::InternalServerError()
-            .body(format!("Could not create Database entry. Error: {err}"));
-    }
+    // the parse result is written to exactly this entry, whatever happens to its name or owner in the meantime
+    let inserted_id = match result {
+        Err(err) => {
+            return HttpResponse::InternalServerError()
+                .body(format!("Could not create Database entry. Error: {err}"))
+        }
+        Ok(result) => result.inserted_id,
+    };
 
     let username_clone = username.clone();
     let problem_name_clone = problem_name.clone();
@@ -484,7 +491,7 @@ async fn add_adf_problem(
 
         let result = adf_coll
             .update_one(
-                doc! { "name": problem_name, "username": username },
+                doc! { "_id": inserted_id },
                 doc! { "$set": { "adf": &adf, "acs_per_strategy.parse_only": &ac_and_graph } },
                 None,
             )
@@ -547,6 +554,12 @@ async fn solve_adf_problem(
             ))
         }
         SimplifiedAdfOpt::Some(adf) => adf,
+    };
+
+    // the result is written to exactly the entry it is computed for, whatever happens to its name or owner meanwhile
+    let problem_filter = match adf_problem.id {
+        Some(id) => doc! { "_id": id },
+        None => doc! { "name": &problem_name, "username": &username },
     };
 
     let has_been_solved = match adf_problem_input.strategy {
@@ -622,7 +635,7 @@ async fn solve_adf_problem(
             Ok(Ok(acs_and_graphs)) => AcsAndGraphsOpt::Some(acs_and_graphs),
         };
 
-        let result = adf_coll.update_one(doc! { "name": problem_name, "username": username }, match adf_problem_input.strategy {
+        let result = adf_coll.update_one(problem_filter, match adf_problem_input.strategy {
             Strategy::Complete => doc! { "$set": { "acs_per_strategy.complete": &acs_and_graphs_enum } },
             Strategy::Ground => doc! { "$set": { "acs_per_strategy.ground": &acs_and_graphs_enum } },
             Strategy::Stable => doc! { "$set": { "acs_per_strategy.stable": &acs_and_graphs_enum } },
